@@ -34,7 +34,8 @@ type c14Case struct {
 	// (a depth or node limit the search will not reach before the clock does).
 	Extra      string `json:"extra,omitempty"`
 	ExtraFirst bool   `json:"extra_first,omitempty"`
-	NumFmt     int    `json:"num_fmt,omitempty"` // 0 plain, 1 zero padded, 2 explicit plus sign: all decimal
+	NumFmt     int    `json:"num_fmt,omitempty"`  // 0 plain, 1 zero padded, 2 explicit plus sign: all decimal
+	OmitOpp    bool   `json:"omit_opp,omitempty"` // the go line carries only the mover's own clock fields
 	RunPolls   int    `json:"run_polls,omitempty"`
 	FEN        string `json:"fen,omitempty"`
 }
@@ -64,9 +65,22 @@ func (c c14Case) goLine() string {
 		case 2:
 			f = "%+d" // explicit sign
 		}
-		fmt.Fprintf(&sb, " wtime "+f+" btime "+f, w, b)
-		if c.HasInc {
-			fmt.Fprintf(&sb, " winc "+f+" binc "+f, wi, bi)
+		switch {
+		case c.OmitOpp && c.White:
+			fmt.Fprintf(&sb, " wtime "+f, w)
+			if c.HasInc {
+				fmt.Fprintf(&sb, " winc "+f, wi)
+			}
+		case c.OmitOpp:
+			fmt.Fprintf(&sb, " btime "+f, b)
+			if c.HasInc {
+				fmt.Fprintf(&sb, " binc "+f, bi)
+			}
+		default:
+			fmt.Fprintf(&sb, " wtime "+f+" btime "+f, w, b)
+			if c.HasInc {
+				fmt.Fprintf(&sb, " winc "+f+" binc "+f, wi, bi)
+			}
 		}
 	}
 	if c.Extra != "" {
@@ -189,6 +203,7 @@ func genC14Cases(rng *rand.Rand, n int, boundary []int64) []c14Case {
 		for i := 0; i < k; i++ {
 			c := base
 			c.White = rng.IntN(2) == 0
+			c.OmitOpp = rng.IntN(7) == 0
 			if i == 0 {
 				c.Opp, c.OppInc = own, inc
 			} else {
